@@ -161,6 +161,12 @@ func draw(t *rapid.T) chain.Case {
 		}
 		cs.Dev = append(cs.Dev, fmt.Sprintf("%s@%d/%d", kind, pos, len(cs.Links)))
 	}
+	// "allowed => commands only narrow" holds whatever else is wrong with the chain: now and then a principal
+	// rule is broken as well (a link without subject, a foreign subject, a rewired audience ...). Such a chain
+	// must be denied anyway; if some path lets it through, it must not have skipped the command rule on the way
+	if nd > 0 && rapid.IntRange(0, 5).Draw(t, "crossfamily") == 3 {
+		chain.ApplyPrincipalDeviation(t, &cs, rapid.SampledFrom([]string{"subject-undef", "subject-undef", "subject-other", "rewire-aud", "rewire-iss", "last-not-root", "subject-other-run"}).Draw(t, "crossdev"))
+	}
 	return cs
 }
 
